@@ -11,7 +11,7 @@ import (
 // change the world; every query they open is closed again.
 
 // QMisuseKinds lists the sub-kinds of KQMisuse.
-var QMisuseKinds = []string{"get_before_next", "get_after_end", "get_after_close", "next_after_end", "entity_after_end", "entity_before_next",
+var QMisuseKinds = []string{"get_before_next", "get_after_end", "get_after_close", "next_after_end", "next_twice_after_end", "entity_after_end", "entity_before_next",
 	"unsafe_get_missing", "unsafe_getrel_missing", "map_get_missing", "map_set_missing", "unsafe_query_get_after_end", "next_after_early_close"}
 
 func (s *Sim) opQMisuse(op *Op) {
@@ -128,6 +128,17 @@ func (s *Sim) opQMisuse(op *Op) {
 	case "next_after_end":
 		n := exhaust()
 		pn, _ = s.call(func() { res = fmt.Sprint(n, q.Next()) })
+	case "next_twice_after_end":
+		// Next after exhaustion panics; a caller that recovers and calls Next once more
+		n := exhaust()
+		var first, second string
+		p1, _ := s.call(func() { first = fmt.Sprint(q.Next()) })
+		pn, _ = s.call(func() { second = fmt.Sprint(q.Next()) })
+		res = fmt.Sprint(n, " first:", p1, first, " second:", second)
+		if !pn && second == "true" {
+			// the query came back to life: it must at least not be positioned on an entity
+			// of an unlocked world; stop using it
+		}
 	case "get_after_close":
 		q.Next()
 		q.Close()
